@@ -471,9 +471,9 @@ package xpath
 //@   ensures forallstr(k, implies(old(inmap(topmap(ctx), k)), inmap(lastElem(toppath(ctx)).Key, k) && lastElem(toppath(ctx)).Key[k] == old(topmap(ctx)[k])))
 //@   loop 0 invariant isfresh(keySlice) && forallstr(k, implies(visited(k), exists(i, 0, len(keySlice), keySlice[i] == k)))
 //@   loop 1 invariant pstk(ctx) == old(pstk(ctx)) && toppath(ctx) == old(toppath(ctx)) && toppath(ctx).Elem == old(toppath(ctx).Elem) && lastElem(toppath(ctx)) == old(lastElem(toppath(ctx)))
-//@   loop 1 invariant lastElem(toppath(ctx)).Key != t4 && forallstr(k, inmap(t4, k) == old(inmap(topmap(ctx), k)) && t4[k] == old(topmap(ctx)[k]))
-//@   loop 1 invariant forallstr(k, implies(old(inmap(topmap(ctx), k)), exists(i, 0, len(t6), t6[i] == k)))
-//@   loop 1 invariant forall(i, 0, loopidx+1, inmap(lastElem(toppath(ctx)).Key, t6[i]) && lastElem(toppath(ctx)).Key[t6[i]] == t4[t6[i]])
+//@   loop 1 invariant lastElem(toppath(ctx)).Key != elems && forallstr(k, inmap(elems, k) == old(inmap(topmap(ctx), k)) && elems[k] == old(topmap(ctx)[k]))
+//@   loop 1 invariant forallstr(k, implies(old(inmap(topmap(ctx), k)), exists(i, 0, len(keySlice), keySlice[i] == k)))
+//@   loop 1 invariant forall(i, 0, loopidx+1, inmap(lastElem(toppath(ctx)).Key, keySlice[i]) && lastElem(toppath(ctx)).Key[keySlice[i]] == elems[keySlice[i]])
 
 // Path stack primitives (callers inline them).
 //@ func (*PathStack).PopPath
